@@ -996,8 +996,9 @@ func c14(c *core.Ctx, r *core.Report) {
 					continue
 				}
 				// the arms are told apart by what they return as the unit: a parsed duration or the constant second
-				rateV := an.Strip(p.OnPath(stripAllocsOnPath(p, ret.Results[0])))
-				unitV := an.Strip(p.OnPath(stripAllocsOnPath(p, ret.Results[1])))
+				rateV := an.RootFV(pr, p.OnPath(stripAllocsOnPath(p, ret.Results[0]))).Resolve(nil).V
+				unitFV := an.RootFV(pr, p.OnPath(stripAllocsOnPath(p, ret.Results[1]))).Resolve(nil)
+				unitV := unitFV.V
 				rate, unit := an.D().Of(rateV), an.D().Of(unitV)
 				atoi := callBehind(rateV, "strconv", "Atoi")
 				negRejected := false
@@ -1009,7 +1010,20 @@ func c14(c *core.Ctx, r *core.Report) {
 				countOK := atoi != nil && len(pr.Params) > 0 && dependsOn(atoi.Call.Args[0], pr.Params[0])
 				if pd := callBehind(unitV, "time", "ParseDuration"); pd != nil {
 					slash++
-					r.Check(negRejected && countOK && dependsOn(pd.Call.Args[0], pr.Params[0]), "ParseRate#slash-arm", an.Pos(c, ret), "N/<duration>: count "+rate+", unit "+unit+", negatives rejected", "the `/` arm returns count "+rate+" and unit "+unit+sprintf(" (negative counts rejected: %v)", negRejected))
+					pdArg := an.FV{V: pd.Call.Args[0], F: unitFV.F}
+					fromInput := dependsOn(pd.Call.Args[0], pr.Params[0])
+					if !fromInput && unitFV.F != nil && unitFV.F.Parent != nil {
+						// parsed inside a helper: its argument, seen from ParseRate, derives from the rate string
+						for _, hp := range unitFV.F.Fn.Params {
+							if dependsOn(pd.Call.Args[0], hp) && dependsOn((an.FV{V: hp, F: unitFV.F}).Resolve(nil).V, pr.Params[0]) {
+								fromInput = true
+							}
+						}
+						if dependsOnFV(pdArg, pr.Params[0]) {
+							fromInput = true
+						}
+					}
+					r.Check(negRejected && countOK && fromInput, "ParseRate#slash-arm", an.Pos(c, ret), "N/<duration>: count "+rate+", unit "+unit+", negatives rejected", "the `/` arm returns count "+rate+" and unit "+unit+sprintf(" (negative counts rejected: %v)", negRejected))
 				} else {
 					bare++
 					r.Check(negRejected && countOK && unit == "1000000000", "ParseRate#bare-arm", an.Pos(c, ret), "bare N: count "+rate+", unit 1s, negatives rejected", "the bare-number arm returns count "+rate+" and unit "+unit+sprintf(" (negative counts rejected: %v)", negRejected))
@@ -1040,6 +1054,12 @@ func callBehind(v ssa.Value, pkg, name string) *ssa.Call {
 		}
 	}
 	return nil
+}
+
+// dependsOnFV: the value, resolved to the root frame, is the source or computed from it.
+func dependsOnFV(x an.FV, src ssa.Value) bool {
+	rv := x.Resolve(nil)
+	return (rv.F == nil || rv.F.Parent == nil) && dependsOn(rv.V, src)
 }
 
 // dependsOn: v is computed (within one function) from src.
